@@ -27,7 +27,10 @@ CrossScenarios == {[main |-> "crosswait", tree |-> [depth |-> 0, form |-> "none"
 \* the main code finishes normally while goroutines it started keep running; the context is cancelled only AFTER the
 \* call has returned (with no error): the goroutines must stop then
 AfterScenarios == {[main |-> "finishes", tree |-> t, at |-> "afterreturn"] : t \in Trees \ {[depth |-> 0, form |-> "none", body |-> "none"]}}
-Scenarios == CrossScenarios \cup AfterScenarios \cup UNION {{[main |-> m, tree |-> t, at |-> a] : t \in Trees, a \in InstantsFor(m)} : m \in Mains} \cup ReuseScenarios
+\* while the run is in progress the host asks the same VM for another Call and Run (refused: VMRun!RefusedStart changes
+\* nothing); the run in progress still stops when its context is cancelled
+BusyScenarios == {[main |-> m, tree |-> [depth |-> 0, form |-> "none", body |-> "none"], at |-> "reuse_busy"] : m \in ReuseMains}
+Scenarios == BusyScenarios \cup CrossScenarios \cup AfterScenarios \cup UNION {{[main |-> m, tree |-> t, at |-> a] : t \in Trees, a \in InstantsFor(m)} : m \in Mains} \cup ReuseScenarios
 Expected(s) == [returns |-> TRUE, err |-> IF s.at = "afterreturn" THEN "nil" ELSE "ctxerr", ticks_after_return |-> 0]
 VARIABLE s
 Init == s \in Scenarios
